@@ -37,6 +37,9 @@ type Config struct {
 	SkipGlob        string      `json:"skip_glob,omitempty"`
 	UseGitignore    bool        `json:"use_gitignore,omitempty"`
 	PathsToExtract  []string    `json:"paths_to_extract,omitempty"` // root-relative
+	// PathsRoot is the index of the root under which DirsToSkip and PathsToExtract are spelled
+	// as absolute paths when that root has a Path (default: the first root).
+	PathsRoot int `json:"paths_root,omitempty"`
 	IgnoreSubDirs   bool        `json:"ignore_sub_dirs,omitempty"`
 	MaxFileSize     int         `json:"max_file_size,omitempty"`
 	MaxInodes       int         `json:"max_inodes,omitempty"`
@@ -180,10 +183,10 @@ func execute(cfg *Config) (obs *Obs) {
 		sc.ScanRoots = append(sc.ScanRoots, &scalibrfs.ScanRoot{FS: sfs, Path: r.Path})
 	}
 	for _, d := range cfg.DirsToSkip {
-		sc.DirsToSkip = append(sc.DirsToSkip, absIn(cfg.Roots[0], d))
+		sc.DirsToSkip = append(sc.DirsToSkip, absIn(cfg.Roots[cfg.PathsRoot], d))
 	}
 	for _, p := range cfg.PathsToExtract {
-		sc.PathsToExtract = append(sc.PathsToExtract, absIn(cfg.Roots[0], p))
+		sc.PathsToExtract = append(sc.PathsToExtract, absIn(cfg.Roots[cfg.PathsRoot], p))
 	}
 	if cfg.SkipRegex != "" {
 		sc.SkipDirRegex = regexp.MustCompile(cfg.SkipRegex)
